@@ -825,6 +825,42 @@ pub fn render(fmt: Fmt, bits: u64, which: u64) -> (Vec<u8>, i64) {
 }
 
 /// Read a corpus of `w q` lines (G4: continued-fraction hard cases).
+/// Lines "digits exponent" (pyoracle/limbstruct.py).
+pub fn read_digit_corpus(path: &str) -> Vec<(Vec<u8>, i32)> {
+    let mut out = Vec::new();
+    if let Ok(txt) = std::fs::read_to_string(path) {
+        for l in txt.lines() {
+            if l.starts_with('#') {
+                continue;
+            }
+            let mut it = l.split_whitespace();
+            if let (Some(d), Some(e)) = (it.next(), it.next()) {
+                if let Ok(e) = e.parse::<i32>() {
+                    if !d.is_empty() && d.bytes().all(|c| c.is_ascii_digit()) {
+                        out.push((d.as_bytes().to_vec(), e));
+                    }
+                }
+            }
+        }
+    }
+    out
+}
+
+/// One entry of the limb-structured corpus, as given or re-laid-out.
+pub fn limb_struct_case(rng: &mut Rng, corpus: &[(Vec<u8>, i32)]) -> Option<Case> {
+    if corpus.is_empty() {
+        return None;
+    }
+    let (d, e) = &corpus[rng.below(corpus.len() as u64) as usize];
+    if rng.chance(1, 2) {
+        return Some(Case { int: d.clone(), frac: vec![], exp: *e, tag: "LIMB_STRUCTURED" });
+    }
+    let tz = d.iter().rev().take_while(|&&c| c == b'0').count();
+    let mut c = place_random(rng, &d[..d.len() - tz], *e as i64 + tz as i64, "LIMB_STRUCTURED")?;
+    c.tag = "LIMB_STRUCTURED";
+    Some(c)
+}
+
 pub fn read_corpus(path: &str) -> Vec<(u64, i32)> {
     let txt = std::fs::read_to_string(path).unwrap_or_default();
     let mut v = Vec::new();
